@@ -141,6 +141,8 @@ pub fn f7_tw_newchunk<const M: usize, const TRY: bool>() {
                 vassert!(DROPS[3] == 1, "NEVER: [C11] error value not delivered exactly once");
                 vassert!(NREC == 2, "NEVER: [C11] expected exactly one new chunk for the Result slot");
                 vassert!(NFREE == 0 && ledger_live_count() == 2, "NEVER: [C03] a chunk was given back to the global allocator by a &self operation (outside reset/drop)");
+                // (before the follow-up request: a request that reaches the allocator ends the path)
+                vassert!(bump.allocated_bytes_including_metadata() == ledger_live_bytes(), "NEVER: [C03,C08] after a failed initialiser the arena's accounting differs from the blocks it holds (chunk unlinked but not released?)");
                 let nreq = NREQ;
                 FORBID_ALLOC = true;
                 let again = bump.try_alloc_layout(Layout::new::<Result<T, E>>());
